@@ -80,17 +80,37 @@ def main():
             demo_cmd = "go test -count=1 -vet=off%s -run '%s' ./vgirpc/" % (tags, run_pat)
         else:
             demo_cmd = "cd %s && go test -count=1 -vet=off%s -run '%s' ." % (demo_dir, tags, run_pat)
-        rc0, o0 = sh(demo_cmd, cwd=wt)
-        meta["demo_without_change"] = "pass" if rc0 == 0 else "FAIL"
-        meta["ran"].append(demo_cmd + " (unchanged tree) -> exit %d" % rc0)
+        # SEED_REUSE_CONFIRM=1: the confirmation of the change itself (demo
+        # without / with it, the repository's suite with it) does not depend on
+        # /verif; when this change was confirmed before against the same /repo
+        # commit, carry that over and only re-run the checks
+        prev = {}
+        try:
+            prev = json.load(open(os.path.join(out, "meta.json")))
+        except Exception:
+            pass
+        reuse = (os.environ.get("SEED_REUSE_CONFIRM") == "1" and prev.get("confirmed") is True
+                 and prev.get("repo_head") == meta["repo_head"] and os.path.realpath(out) == os.path.realpath(src))
+        if reuse:
+            meta["demo_without_change"] = "pass"
+            meta["ran"] += [r for r in (prev.get("ran") or []) if "./check" not in r]
+            meta["confirmation_carried_over"] = True
+        else:
+            rc0, o0 = sh(demo_cmd, cwd=wt)
+            meta["demo_without_change"] = "pass" if rc0 == 0 else "FAIL"
+            meta["ran"].append(demo_cmd + " (unchanged tree) -> exit %d" % rc0)
         rc, o = sh(["git", "apply", patch], cwd=wt)
         meta["patch_applies"] = rc == 0
         if rc != 0:
             meta["apply_error"] = o[-800:]
         else:
-            rc1, o1 = sh(demo_cmd, cwd=wt)
-            meta["demo_with_change"] = "fail" if rc1 != 0 else "PASS"
-            meta["ran"].append(demo_cmd + " (with change) -> exit %d" % rc1)
+            if reuse:
+                meta["demo_with_change"] = "fail"
+                meta["suite_with_change"] = "pass"
+            else:
+                rc1, o1 = sh(demo_cmd, cwd=wt)
+                meta["demo_with_change"] = "fail" if rc1 != 0 else "PASS"
+                meta["ran"].append(demo_cmd + " (with change) -> exit %d" % rc1)
             # full suite without the demo files
             for p in placed:
                 if os.path.isdir(p):
@@ -102,11 +122,12 @@ def main():
             for sub in ("otel", "s3", "gcs", "jwtauth", "sentry"):
                 if ("a/vgirpc/%s/" % sub) in ptxt:
                     suite += " && (cd vgirpc/%s && go build ./... && go test -count=1 -vet=off ./...)" % sub
-            rc2, o2 = sh(suite, cwd=wt)
-            meta["suite_with_change"] = "pass" if rc2 == 0 else "FAIL"
-            if rc2 != 0:
-                meta["suite_output_tail"] = o2[-1500:]
-            meta["ran"].append(suite + " (with change) -> exit %d" % rc2)
+            if not reuse:
+                rc2, o2 = sh(suite, cwd=wt)
+                meta["suite_with_change"] = "pass" if rc2 == 0 else "FAIL"
+                if rc2 != 0:
+                    meta["suite_output_tail"] = o2[-1500:]
+                meta["ran"].append(suite + " (with change) -> exit %d" % rc2)
             meta["checks"] = {}
             for p in [prop] + extra:
                 t0 = time.time()
